@@ -1,17 +1,34 @@
 (* DictProofs.v — property C13: the dictionary form is faithful.
-   `from_dict (to_dict n)` rebuilds the node, for every node produced by the constructors.
+   `from_dict (to_dict n)` rebuilds the node, for every node produced by the constructors (`built`).
 
-   FINDING (checked by `Eval vm_compute` below, see `extra_keys_lost`): plain equality
-   `from_dict (to_dict n) = Ok n` is FALSE for Input / Output / Flatten nodes whose type argument was a
-   dictionary with more entries than the one the class serialises: `Input.to_dict` stores only
-   `input_type["input"]` under "shape" (Output: `output_type["output"]`, Flatten: `input_type["input"]`),
-   so every other entry of the type dictionary is lost.  Everything else (kind, all fields in order with
-   their values, both types of every other kind, the serialised entry of the type, container kind
-   TSeq/TArr included) is rebuilt exactly.  Hence the theorems are stated with `canon`, which restricts
-   those three type dictionaries to the serialised entry:
-       from_dict (to_dict n) = Ok (canon n)              for every built n
-       canon n = n                                      when the type dictionaries are single-entry
-   Facts about Gen/Tables.v (GENERATED) are proved by computation only. *)
+   FINDING (counterexample `extra_keys_lost`, checked by computation at the end of the file): plain
+   equality `from_dict (to_dict n) = Ok n` is FALSE for Input / Output / Flatten nodes whose type argument
+   was a dictionary with more entries than the one the class serialises.  `Input.to_dict` stores only
+   `input_type["input"]` under "shape" (Output: `output_type["output"]`; Flatten: `input_type["input"]`
+   under "input_type"), so every other entry of that type dictionary is lost, e.g.
+       Input(input_type={"a": array([1]), "input": (2, 3)})   has input_type {"a": .., "input": (2, 3)}
+       from_dict(to_dict(it))                                  has input_type {"input": (2, 3)}.
+   Nothing else is lost: kind, every field in order with its value, both types of the 14 other leaf
+   kinds, the serialised entry itself — its container (tuple TSeq / array TArr) included, `tyv_round` —,
+   child names and order, edges, metadata are rebuilt exactly.  (The two suspects named in the task —
+   TSeq vs TArr, and the dtype/token that `pval_of_tyv` forgets — are NOT a problem: types keep only the
+   numbers and the container, and both survive.)
+
+   Main results
+     str2kind_name, to_dict_keys_leaf, construct_keys                       (1), (2)
+     construct_round  : construct k args = Ok (Leaf k' fs ti to) ->        (3), all 17 leaf kinds
+                        from_dict (to_dict (Leaf k' fs ti to)) = Ok (Leaf k' fs (canon_tin k' ti) (canon_tout k' to))
+     construct_idem   : ... -> leaf_single k' ti to -> from_dict (to_dict (Leaf ..)) = Ok (Leaf ..)   (plain =)
+     construct_idem_plain : plain = without side condition for the 14 kinds other than Input/Output/Flatten
+     dict_round_trip_canon : built n -> from_dict (to_dict n) = Ok (canon n)       (4), graphs of any depth
+     dict_round_trip       : built n -> exists n', from_dict (to_dict n) = Ok n' /\ same_node n' n
+     dict_round_trip_eq    : built n -> single_typed n -> from_dict (to_dict n) = Ok n        (plain =)
+     same_node_eq          : same_node is `=` on single_typed nodes (the relation is not too weak)
+     dict_round_trip_stable / _twice : a second round trip is the identity
+   `canon` restricts the three serialised type dictionaries to the serialised entry (and recomputes the
+   graph-level types from the children, as NIRGraph.__post_init__ does).
+   Facts about Gen/Tables.v (GENERATED) are proved by computation only (vm_compute / cbn on the table),
+   so they are re-checked whenever the table changes. *)
 From NIR Require Import Model.Graph Model.Serial Proofs.MirrorClosedProofs.
 From NIR Require Proofs.NodesProofs.
 From Coq Require Import Lia List Bool String.
@@ -328,3 +345,578 @@ Proof.
        cbn [parse_shape map fst snd ty_get restrict bind undef_ty assoc String.eqb Ascii.eqb Bool.eqb andb pval_of_tyv tyv_of_pval];
        rw_hyps; rewrite ?tyv_round; cbn_dict; cbn [tyv_nums]; rw_hyps; cbn_fields; reflexivity.
 Qed.
+
+(* ---- (2), second part: the fields of a constructed leaf --------------------------------------- *)
+Lemma fld_assoc f fs v : fld f fs = Ok v -> assoc f fs = Some v.
+Proof. unfold fld. destruct (assoc f fs); [intros H; inversion H; reflexivity|discriminate]. Qed.
+
+Lemma post_init_keys k bfs k' fs tin tout :
+  post_init k bfs = Ok (Leaf k' fs tin tout) -> map fst fs = map fst (drop_types bfs).
+Proof.
+  intros H. destruct k; unfold post_init, elementwise, matvec in H; ok_walk H; try reflexivity.
+  1-11: rewrite !drop_types_keys; f_equal;
+    rewrite (assoc_set_keys_present "dilation" _ a1)
+      by (rewrite !assoc_set_other' by discriminate; apply fld_assoc; assumption);
+    rewrite (assoc_set_keys_present "stride" _ a0)
+      by (rewrite !assoc_set_other' by discriminate; apply fld_assoc; assumption);
+    rewrite (assoc_set_keys_present "padding" _ a) by (apply fld_assoc; assumption);
+    reflexivity.
+  match goal with E : _ = Ok (Leaf _ _ _ _) |- _ => ok_walk E end.
+  match goal with E : fld "w_in" _ = Ok ?w |- _ =>
+    rewrite (assoc_set_keys_present "w_in" _ w)
+      by (rewrite drop_types_assoc by discriminate; apply fld_assoc; exact E) end.
+  reflexivity.
+Qed.
+
+Definition not_type_key (f : string) : bool :=
+  negb (String.eqb f "input_type" || String.eqb f "output_type").
+
+(* the fields of a constructed leaf are the dataclass fields of its class (generated table), in the
+   order of the class, minus input_type / output_type — for all 17 kinds (for Input, Output and
+   Flatten too: `drop_types` removes their type argument as well; it comes back through "shape" /
+   "input_type" in the dictionary) *)
+Theorem construct_keys : forall k args k' fs tin tout,
+  construct k args = Ok (Leaf k' fs tin tout) ->
+  map fst fs = filter not_type_key (class_keys k).
+Proof.
+  intros k args k' fs tin tout H. unfold construct in H.
+  destruct (bind_args k args) as [bfs|] eqn:Hb; cbn [bind] in H; [|discriminate].
+  apply post_init_keys in H. rewrite H, drop_types_keys. rewrite (bind_args_keys _ _ _ Hb). reflexivity.
+Qed.
+
+(* no class has a field called "type", "shape" (computation on the generated table) *)
+Lemma class_keys_no_tag :
+  forallb (fun k => negb (mem_str "type" (class_keys k)) && negb (mem_str "shape" (class_keys k))) all_kinds = true.
+Proof. vm_compute. reflexivity. Qed.
+
+
+(* ---- (3) construction followed by to_dict / from_dict -------------------------------------------- *)
+Definition canon_tin (k : kind) (t : ty) : ty :=
+  match k with KInput | KFlatten => restrict "input" t | _ => t end.
+Definition canon_tout (k : kind) (t : ty) : ty :=
+  match k with KOutput => restrict "output" t | _ => t end.
+
+Theorem construct_round : forall k args k' fs tin tout,
+  k <> KGraph -> construct k args = Ok (Leaf k' fs tin tout) ->
+  from_dict (to_dict (Leaf k' fs tin tout)) = Ok (Leaf k' fs (canon_tin k' tin) (canon_tout k' tout)).
+Proof.
+  intros k args k' fs tin tout Hk H.
+  assert (k' = k) as -> by (apply construct_kind in H; exact H).
+  destruct k; try (exfalso; apply Hk; reflexivity);
+    try (match type of H with construct ?k0 _ = _ => apply (idem_simple k0 args) end; [reflexivity|exact H]).
+  - apply (idem_input args). exact H.
+  - apply (idem_output args). exact H.
+  - apply (idem_conv2d args). exact H.
+  - apply (idem_flatten args). exact H.
+  - apply (idem_cuba args). exact H.
+Qed.
+
+Definition ty_single (key : string) (t : ty) : Prop := exists v, t = Some [(key, v)].
+
+Lemma restrict_single key t : ty_single key t -> restrict key t = t.
+Proof. intros [v ->]. unfold restrict. cbn [assoc]. rewrite String.eqb_refl. reflexivity. Qed.
+
+Lemma restrict_idem key t : restrict key (restrict key t) = restrict key t.
+Proof.
+  destruct t as [d|]; [|reflexivity].
+  destruct (assoc key d) as [v|] eqn:E.
+  - replace (restrict key (Some d)) with (Some [(key, v)]) by (unfold restrict; rewrite E; reflexivity).
+    apply restrict_single. exists v. reflexivity.
+  - replace (restrict key (Some d)) with (Some d) by (unfold restrict; rewrite E; reflexivity).
+    unfold restrict. rewrite E. reflexivity.
+Qed.
+
+(* the type dictionaries that the dictionary form serialises have one entry *)
+Definition leaf_single (k : kind) (tin tout : ty) : Prop :=
+  match k with
+  | KInput | KFlatten => ty_single "input" tin
+  | KOutput => ty_single "output" tout
+  | _ => True
+  end.
+
+(* IDEMPOTENCE OF CONSTRUCTION (plain equality), for every leaf kind *)
+Theorem construct_idem : forall k args k' fs tin tout,
+  k <> KGraph -> construct k args = Ok (Leaf k' fs tin tout) -> leaf_single k' tin tout ->
+  from_dict (to_dict (Leaf k' fs tin tout)) = Ok (Leaf k' fs tin tout).
+Proof.
+  intros k args k' fs tin tout Hk H Hs. rewrite (construct_round k args k' fs tin tout Hk H).
+  destruct k'; cbn [canon_tin canon_tout leaf_single] in *; rewrite ?restrict_single by exact Hs; reflexivity.
+Qed.
+
+Corollary construct_idem_plain : forall k args k' fs tin tout,
+  plain_kind k = true -> construct k args = Ok (Leaf k' fs tin tout) ->
+  from_dict (to_dict (Leaf k' fs tin tout)) = Ok (Leaf k' fs tin tout).
+Proof.
+  intros k args k' fs tin tout Hp H.
+  assert (k' = k) as -> by (apply construct_kind in H; exact H).
+  apply (construct_idem k args); [intros ->; discriminate Hp|exact H|].
+  destruct k; try discriminate Hp; exact I.
+Qed.
+
+(* when is the serialised type dictionary single-entry: whenever the type argument is not a dictionary
+   (array, tuple, list, str, None), or is a dictionary with exactly the serialised entry *)
+Lemma parse_shape_single x key t :
+  (forall kv, x <> VDict kv) -> parse_shape x key = Ok t -> ty_single key (Some t).
+Proof.
+  intros Hnd H. destruct x; cbn [parse_shape] in H; try discriminate H;
+    try (inversion H; eexists; reflexivity).
+  exfalso. eapply Hnd. reflexivity.
+Qed.
+
+Lemma parse_shape_dict1 key v : parse_shape (VDict [(key, v)]) key = Ok [(key, tyv_of_pval v)].
+Proof. reflexivity. Qed.
+
+(* ---- (4) nodes produced by the constructors ------------------------------------------------------ *)
+Inductive built : node -> Prop :=
+| built_leaf k args n : k <> KGraph -> construct k args = Ok n -> built n
+| built_graph ch es m :
+    NoDup (map fst ch) -> Forall (fun p => built (snd p)) ch -> built (mk_graph ch es m).
+
+Section built_ind2.
+  Variable P : node -> Prop.
+  Hypothesis Hleaf : forall k args n, k <> KGraph -> construct k args = Ok n -> P n.
+  Hypothesis Hgraph : forall ch es m,
+    NoDup (map fst ch) -> Forall (fun p => built (snd p)) ch -> Forall (fun p => P (snd p)) ch ->
+    P (mk_graph ch es m).
+
+  Fixpoint built_ind2 (n : node) (b : built n) {struct b} : P n :=
+    match b in built n0 return P n0 with
+    | built_leaf k args n hk hc => Hleaf k args n hk hc
+    | built_graph ch es m nd hf =>
+      Hgraph ch es m nd hf
+        ((fix go (l : list (string * node)) (h : Forall (fun p => built (snd p)) l) {struct h}
+            : Forall (fun p => P (snd p)) l :=
+            match h in Forall _ l0 return Forall (fun p => P (snd p)) l0 with
+            | Forall_nil _ => Forall_nil _
+            | @Forall_cons _ _ x r hx hr => Forall_cons x (built_ind2 (snd x) hx) (go r hr)
+            end) ch hf)
+    end.
+End built_ind2.
+
+(* what the round trip returns: the node with the three serialised type dictionaries restricted to the
+   serialised entry, and the graph-level types recomputed from the children (NIRGraph.__post_init__) *)
+Fixpoint canon (n : node) : node :=
+  match n with
+  | Leaf k fs tin tout => Leaf k fs (canon_tin k tin) (canon_tout k tout)
+  | Graph ch es _ _ m => mk_graph (map (fun p => (fst p, canon (snd p))) ch) es m
+  end.
+
+(* ---- fuel ------------------------------------------------------------------------------------------- *)
+Definition go_children (F : list (string * pval) -> result node) :=
+  fix go (l : list (string * pval)) : result (list (string * node)) :=
+    match l with
+    | [] => Ok []
+    | (name, v) :: r =>
+      do c <- (match v with VDict cd => F cd | _ => Err TypeError end);
+      do rest <- go r; Ok ((name, c) :: rest)
+    end.
+
+Lemma go_children_mono (F G : list (string * pval) -> result node) :
+  (forall cd c, F cd = Ok c -> G cd = Ok c) ->
+  forall l ch, go_children F l = Ok ch -> go_children G l = Ok ch.
+Proof.
+  intros HFG. induction l as [|[name v] r IH]; intros ch H; cbn [go_children] in *; [exact H|].
+  destruct v; cbn [bind] in H; try discriminate H.
+  destruct (F kv) as [c|e] eqn:Hc; cbn [bind] in H; [|discriminate H].
+  rewrite (HFG _ _ Hc). cbn [bind].
+  destruct (go_children F r) as [rest|e] eqn:Hr; cbn [bind] in H; [|discriminate H].
+  rewrite (IH rest eq_refl). cbn [bind]. exact H.
+Qed.
+
+Lemma dict2node_mono : forall f d n, dict2node f d = Ok n -> forall f', (f <= f')%nat -> dict2node f' d = Ok n.
+Proof.
+  induction f as [|f IH]; intros d n H f' Hle; [discriminate H|].
+  destruct f' as [|f']; [lia|]. assert (f <= f')%nat as Hle' by lia.
+  cbn [dict2node] in *.
+  destruct (assoc "type" d) as [tv|]; [|discriminate H].
+  destruct tv; cbn [bind] in *; try discriminate H.
+  destruct (str2kind s) as [k|e]; cbn [bind] in *; [|discriminate H].
+  destruct k; try exact H.
+  destruct (match assoc "nodes" d with
+            | Some (VDict l) => Ok l | Some _ => Err AttributeError | None => Err KeyError end)
+    as [nodesv|e]; cbn [bind] in *; [|discriminate H].
+  match type of H with bind ?x _ = _ => destruct x as [ch|e] eqn:Hch end; cbn [bind] in H; [|discriminate H].
+  apply (go_children_mono (dict2node f) (dict2node f')) in Hch; [|intros cd c Hc; apply (IH _ _ Hc); exact Hle'].
+  unfold go_children in Hch. rewrite Hch. cbn [bind]. exact H.
+Qed.
+
+Lemma pval_depth_in (l : list (string * pval)) p :
+  In p l -> (pval_depth (snd p) < pval_depth (VDict l))%nat.
+Proof.
+  cbn [pval_depth]. induction l as [|q r IH]; intros Hin; [destruct Hin|].
+  cbn [fold_right]. destruct Hin as [->|Hin]; [lia|]. specialize (IH Hin). lia.
+Qed.
+
+Lemma edge_rows_to_dict (es : list (string * string)) :
+  edge_rows (VList (map (fun e => VTuple [VStr (fst e); VStr (snd e)]) es)) = Ok es.
+Proof.
+  cbn [edge_rows]. induction es as [|[a b] es IH]; cbn [map mapM bind as_text fst snd]; [reflexivity|].
+  rewrite IH. reflexivity.
+Qed.
+
+Definition child_dicts (ch : list (string * node)) : list (string * pval) :=
+  map (fun p => (fst p, VDict (to_dict (snd p)))) ch.
+
+Lemma go_children_to_dict (F : list (string * pval) -> result node) (G : node -> node) ch :
+  Forall (fun p => F (to_dict (snd p)) = Ok (G (snd p))) ch ->
+  go_children F (child_dicts ch) = Ok (map (fun p => (fst p, G (snd p))) ch).
+Proof.
+  induction 1 as [|[name c] r Hc _ IH]; cbn [child_dicts map go_children fst snd]; [reflexivity|].
+  cbn [snd] in Hc. rewrite Hc. cbn [bind]. fold (child_dicts r). rewrite IH. reflexivity.
+Qed.
+
+(* one step of dict2node on the dictionary of a graph *)
+Lemma dict2node_graph f ch es gi go m :
+  dict2node (S f) (to_dict (Graph ch es gi go m)) =
+  do ch' <- go_children (dict2node f) (child_dicts ch); Ok (mk_graph ch' es m).
+Proof.
+  cbn [dict2node to_dict assoc String.eqb Ascii.eqb Bool.eqb andb bind].
+  change "NIRGraph" with (kind_name KGraph). rewrite str2kind_name. cbn [bind].
+  fold (child_dicts ch). fold (go_children (dict2node f)).
+  destruct (go_children (dict2node f) (child_dicts ch)) as [ch'|e]; cbn [bind]; [|reflexivity].
+  rewrite edge_rows_to_dict. cbn [bind]. reflexivity.
+Qed.
+
+Theorem dict_round_trip_canon : forall n, built n -> from_dict (to_dict n) = Ok (canon n).
+Proof.
+  intros n Hb. induction Hb as [k args n Hk Hc|ch es m Hnd Hbs IH] using built_ind2.
+  - destruct (construct_leaf _ _ _ Hc) as (fs & ti & to & ->).
+    cbn [canon]. apply (construct_round k args k fs ti to Hk Hc).
+  - unfold from_dict, mk_graph. rewrite dict2node_graph.
+    rewrite (go_children_to_dict _ canon).
+    + cbn [bind canon]. reflexivity.
+    + rewrite Forall_forall in IH |- *. intros p Hin. specialize (IH p Hin).
+      unfold from_dict in IH. apply (dict2node_mono _ _ _ IH).
+      set (dG := to_dict (Graph ch es (graph_tin ch) (graph_tout ch) m)).
+      assert (In ("nodes", VDict (child_dicts ch)) dG) as H1 by (left; reflexivity).
+      apply pval_depth_in in H1. cbn [snd] in H1.
+      assert (In (fst p, VDict (to_dict (snd p))) (child_dicts ch)) as H2
+        by (unfold child_dicts; apply in_map_iff; exists p; split; [reflexivity|exact Hin]).
+      apply pval_depth_in in H2. cbn [snd] in H2. lia.
+Qed.
+
+(* ---- equivalence of nodes -------------------------------------------------------------------------- *)
+Section node_ind2.
+  Variable P : node -> Prop.
+  Hypothesis Hleaf : forall k fs ti to, P (Leaf k fs ti to).
+  Hypothesis Hgraph : forall ch es gi go m, Forall (fun p => P (snd p)) ch -> P (Graph ch es gi go m).
+  Fixpoint node_ind2 (n : node) : P n :=
+    match n with
+    | Leaf k fs ti to => Hleaf k fs ti to
+    | Graph ch es gi go m =>
+      Hgraph ch es gi go m
+        ((fix go (l : list (string * node)) : Forall (fun p => P (snd p)) l :=
+            match l with
+            | [] => Forall_nil _
+            | x :: r => Forall_cons x (node_ind2 (snd x)) (go r)
+            end) ch)
+    end.
+End node_ind2.
+
+(* graph-level types, restricted like the children's *)
+Definition gcanon (key : string) (g : option (list (string * ty))) : option (list (string * ty)) :=
+  option_map (map (fun p => (fst p, restrict key (snd p)))) g.
+
+(* pairwise relation on children: same names in the same order, related nodes *)
+Fixpoint all2 (R : node -> node -> Prop) (l l' : list (string * node)) : Prop :=
+  match l, l' with
+  | [], [] => True
+  | x :: r, y :: r' => fst x = fst y /\ R (snd x) (snd y) /\ all2 R r r'
+  | _, _ => False
+  end.
+
+(* SAME NODE, as far as the dictionary form can tell: same kind, same field list (names, order and
+   values), same types — where for Input / Flatten (Output) only the "input" ("output") entry of the type
+   dictionary is compared when it exists, because that is all `to_dict` stores (see the FINDING at the
+   top; for every other kind the types are compared with `=`) —, for graphs the same child names in the
+   same order with same children, same edge list, same metadata, same graph-level types (restricted in
+   the same way). *)
+Fixpoint same_node (a b : node) {struct a} : Prop :=
+  match a, b with
+  | Leaf k fs ti to, Leaf k' fs' ti' to' =>
+      k = k' /\ fs = fs' /\ canon_tin k ti = canon_tin k ti' /\ canon_tout k to = canon_tout k to'
+  | Graph ch es gi go m, Graph ch' es' gi' go' m' =>
+      (fix all (l l' : list (string * node)) {struct l} : Prop :=
+         match l, l' with
+         | [], [] => True
+         | x :: r, y :: r' => fst x = fst y /\ same_node (snd x) (snd y) /\ all r r'
+         | _, _ => False
+         end) ch ch'
+      /\ es = es' /\ m = m' /\ gcanon "input" gi = gcanon "input" gi' /\ gcanon "output" go = gcanon "output" go'
+  | _, _ => False
+  end.
+
+Lemma same_node_graph ch es gi go m ch' es' gi' go' m' :
+  same_node (Graph ch es gi go m) (Graph ch' es' gi' go' m') <->
+  all2 same_node ch ch' /\ es = es' /\ m = m' /\
+  gcanon "input" gi = gcanon "input" gi' /\ gcanon "output" go = gcanon "output" go'.
+Proof.
+  cbn [same_node].
+  assert (forall l l' : list (string * node),
+    (fix all (l l' : list (string * node)) {struct l} : Prop :=
+         match l, l' with
+         | [], [] => True
+         | x :: r, y :: r' => fst x = fst y /\ same_node (snd x) (snd y) /\ all r r'
+         | _, _ => False
+         end) l l' <-> all2 same_node l l') as Hall.
+  { induction l as [|x r IH]; intros [|y r']; cbn [all2]; try reflexivity. rewrite IH. reflexivity. }
+  rewrite Hall. reflexivity.
+Qed.
+
+Lemma same_node_refl : forall n, same_node n n.
+Proof.
+  induction n as [k fs ti to|ch es gi go m IH] using node_ind2.
+  - cbn [same_node]. repeat split.
+  - apply same_node_graph. repeat split.
+    induction IH as [|x r Hx _ IHr]; cbn [all2]; [exact I|]. repeat split; assumption.
+Qed.
+
+Corollary eq_same_node a b : a = b -> same_node a b.
+Proof. intros ->. apply same_node_refl. Qed.
+
+Definition canon_child (p : string * node) : string * node := (fst p, canon (snd p)).
+
+Lemma canon_graph ch es gi go m : canon (Graph ch es gi go m) = mk_graph (map canon_child ch) es m.
+Proof. reflexivity. Qed.
+
+Lemma is_input_canon n : is_input (canon n) = is_input n.
+Proof. destruct n as [k fs ti to|ch es gi go m]; [destruct k|]; reflexivity. Qed.
+Lemma is_output_canon n : is_output (canon n) = is_output n.
+Proof. destruct n as [k fs ti to|ch es gi go m]; [destruct k|]; reflexivity. Qed.
+
+Lemma filter_map_comm {A B} (f : A -> B) (q : B -> bool) (q' : A -> bool) l :
+  (forall x, q (f x) = q' x) -> filter q (map f l) = map f (filter q' l).
+Proof.
+  intros H. induction l as [|x r IH]; cbn [map filter]; [reflexivity|].
+  rewrite H. destruct (q' x); cbn [map]; rewrite IH; reflexivity.
+Qed.
+
+Lemma graph_tin_canon ch : graph_tin (map canon_child ch) = gcanon "input" (graph_tin ch).
+Proof.
+  unfold graph_tin, inputs.
+  rewrite (filter_map_comm canon_child _ (fun p => is_input (snd p)))
+    by (intros x; cbn [canon_child snd]; apply is_input_canon).
+  assert (Forall (fun p => is_input (snd p) = true) (filter (fun p => is_input (snd p)) ch)) as HF
+    by (apply Forall_forall; intros p Hp; apply filter_In in Hp; apply Hp).
+  destruct HF as [|x r Hx HF]; [reflexivity|].
+  cbn [map gcanon option_map]. f_equal. f_equal.
+  - destruct x as [name [k fs ti to|? ? ? ? ?]]; cbn [snd is_input] in Hx; [|discriminate Hx].
+    destruct k; try discriminate Hx. reflexivity.
+  - rewrite !map_map. apply map_ext_in. intros [name c] Hin. rewrite Forall_forall in HF.
+    specialize (HF _ Hin). cbn [snd fst canon_child] in *.
+    destruct c as [k fs ti to|? ? ? ? ?]; cbn [is_input] in HF; [|discriminate HF].
+    destruct k; try discriminate HF. reflexivity.
+Qed.
+
+Lemma graph_tout_canon ch : graph_tout (map canon_child ch) = gcanon "output" (graph_tout ch).
+Proof.
+  unfold graph_tout, outputs.
+  rewrite (filter_map_comm canon_child _ (fun p => is_output (snd p)))
+    by (intros x; cbn [canon_child snd]; apply is_output_canon).
+  cbn [gcanon option_map]. f_equal.
+  assert (Forall (fun p => is_output (snd p) = true) (filter (fun p => is_output (snd p)) ch)) as HF
+    by (apply Forall_forall; intros p Hp; apply filter_In in Hp; apply Hp).
+  rewrite !map_map. apply map_ext_in. intros [name c] Hin. rewrite Forall_forall in HF.
+  specialize (HF _ Hin). cbn [snd fst canon_child] in *.
+  destruct c as [k fs ti to|? ? ? ? ?]; cbn [is_output] in HF; [|discriminate HF].
+  destruct k; try discriminate HF. reflexivity.
+Qed.
+
+Lemma gcanon_idem key g : gcanon key (gcanon key g) = gcanon key g.
+Proof.
+  destruct g as [l|]; [|reflexivity]. cbn [gcanon option_map]. f_equal. rewrite map_map.
+  apply map_ext. intros p. cbn [fst snd]. rewrite restrict_idem. reflexivity.
+Qed.
+
+Lemma canon_tin_idem k t : canon_tin k (canon_tin k t) = canon_tin k t.
+Proof. destruct k; cbn [canon_tin]; rewrite ?restrict_idem; reflexivity. Qed.
+Lemma canon_tout_idem k t : canon_tout k (canon_tout k t) = canon_tout k t.
+Proof. destruct k; cbn [canon_tout]; rewrite ?restrict_idem; reflexivity. Qed.
+
+(* canon is a projection, and a canonical node is `same_node` as the original whenever the graph-level
+   types mirror the children (true for every built node, MirrorClosedProofs) *)
+Lemma canon_same : forall n, mirrors_deep n -> same_node (canon n) n.
+Proof.
+  induction n as [k fs ti to|ch es gi go m IH] using node_ind2; intros Hm.
+  - cbn [canon same_node]. rewrite canon_tin_idem, canon_tout_idem. repeat split.
+  - apply mirrors_deep_graph in Hm. destruct Hm as [[-> ->] Hch].
+    rewrite canon_graph. unfold mk_graph. apply same_node_graph.
+    rewrite graph_tin_canon, graph_tout_canon, !gcanon_idem. repeat split.
+    induction IH as [|x r Hx _ IHr]; cbn [map all2]; [exact I|].
+    inversion Hch as [|? ? Hmx Hmr]; subst. repeat split; [apply Hx; exact Hmx|apply IHr; exact Hmr].
+Qed.
+
+Lemma built_mirrors_deep : forall n, built n -> mirrors_deep n.
+Proof.
+  intros n Hb. induction Hb as [k args n Hk Hc|ch es m Hnd Hbs IH] using built_ind2.
+  - destruct (construct_leaf _ _ _ Hc) as (fs & ti & to & ->). exact I.
+  - apply mk_graph_mirrors_deep. exact IH.
+Qed.
+
+(* (4) THE ROUND TRIP *)
+Theorem dict_round_trip : forall n, built n -> exists n', from_dict (to_dict n) = Ok n' /\ same_node n' n.
+Proof.
+  intros n Hb. exists (canon n). split; [apply dict_round_trip_canon; exact Hb|].
+  apply canon_same. apply built_mirrors_deep. exact Hb.
+Qed.
+
+(* ---- plain equality, when the serialised type dictionaries are single-entry --------------------- *)
+Fixpoint single_typed (n : node) : Prop :=
+  match n with
+  | Leaf k _ ti to => leaf_single k ti to
+  | Graph ch _ _ _ _ =>
+    (fix all (l : list (string * node)) : Prop :=
+       match l with [] => True | p :: r => single_typed (snd p) /\ all r end) ch
+  end.
+
+Lemma single_typed_graph ch es gi go m :
+  single_typed (Graph ch es gi go m) <-> Forall (fun p => single_typed (snd p)) ch.
+Proof.
+  cbn [single_typed]. induction ch as [|p r IH].
+  - split; [constructor|trivial].
+  - split.
+    + intros [H1 H2]. constructor; [exact H1|apply IH; exact H2].
+    + intros H. inversion H as [|? ? H1 H2]. split; [exact H1|apply IH; exact H2].
+Qed.
+
+Lemma canon_leaf_single k fs ti to :
+  leaf_single k ti to -> canon (Leaf k fs ti to) = Leaf k fs ti to.
+Proof.
+  intros H. cbn [canon]. destruct k; cbn [canon_tin canon_tout leaf_single] in *;
+    rewrite ?restrict_single by exact H; reflexivity.
+Qed.
+
+Lemma canon_id : forall n, mirrors_deep n -> single_typed n -> canon n = n.
+Proof.
+  induction n as [k fs ti to|ch es gi go m IH] using node_ind2; intros Hm Hs.
+  - apply canon_leaf_single. exact Hs.
+  - apply mirrors_deep_graph in Hm. destruct Hm as [[-> ->] Hch].
+    apply single_typed_graph in Hs. rewrite canon_graph. unfold mk_graph.
+    assert (map canon_child ch = ch) as ->; [|reflexivity].
+    induction IH as [|x r Hx _ IHr]; cbn [map]; [reflexivity|].
+    inversion Hch as [|? ? Hmx Hmr]; subst. inversion Hs as [|? ? Hsx Hsr]; subst.
+    rewrite (IHr Hmr Hsr). unfold canon_child. rewrite (Hx Hmx Hsx). destruct x; reflexivity.
+Qed.
+
+(* the strongest form: plain equality *)
+Theorem dict_round_trip_eq : forall n, built n -> single_typed n -> from_dict (to_dict n) = Ok n.
+Proof.
+  intros n Hb Hs. rewrite (dict_round_trip_canon n Hb).
+  rewrite (canon_id n (built_mirrors_deep n Hb) Hs). reflexivity.
+Qed.
+
+(* `same_node` is plain equality on such nodes: the relation of (4) is not weaker than necessary *)
+Lemma same_node_eq : forall a b,
+  mirrors_deep a -> mirrors_deep b -> single_typed a -> single_typed b -> same_node a b -> a = b.
+Proof.
+  induction a as [k fs ti to|ch es gi go m IH] using node_ind2; intros b Hma Hmb Hsa Hsb H.
+  - destruct b as [k' fs' ti' to'|]; [|destruct H]. cbn [same_node] in H.
+    destruct H as (<- & <- & Hi & Ho). cbn [single_typed] in Hsa, Hsb.
+    assert (ti = ti' /\ to = to') as [<- <-]; [|reflexivity].
+    destruct k; cbn [canon_tin canon_tout leaf_single] in *;
+      rewrite ?(restrict_single _ _ Hsa), ?(restrict_single _ _ Hsb) in *; split; assumption.
+  - destruct b as [|ch' es' gi' go' m']; [destruct H|].
+    apply same_node_graph in H. destruct H as (Hall & <- & <- & _ & _).
+    apply mirrors_deep_graph in Hma. destruct Hma as [[-> ->] Hca].
+    apply mirrors_deep_graph in Hmb. destruct Hmb as [[-> ->] Hcb].
+    apply single_typed_graph in Hsa. apply single_typed_graph in Hsb.
+    assert (ch = ch') as <-; [|reflexivity].
+    revert ch' Hall Hcb Hsb.
+    induction IH as [|x r Hx _ IHr]; intros [|y r'] Hall Hcb Hsb; cbn [all2] in Hall;
+      try (destruct Hall; fail); [reflexivity|].
+    destruct Hall as (Hn & Hxy & Hr).
+    inversion Hca as [|? ? Hmx Hmr]; subst. inversion Hsa as [|? ? Hsx Hsr]; subst.
+    inversion Hcb as [|? ? Hmy Hmr']; subst. inversion Hsb as [|? ? Hsy Hsr']; subst.
+    rewrite (IHr Hmr Hsr r' Hr Hmr' Hsr').
+    destruct x as [nx cx], y as [ny cy]. cbn [fst snd] in *.
+    rewrite Hn, (Hx cy Hmx Hmy Hsx Hsy Hxy). reflexivity.
+Qed.
+
+(* ---- the round trip is a projection: a second round trip changes nothing ------------------------ *)
+Lemma dict2node_leaf_built f d n :
+  dict2node f d = Ok n -> is_graph n = false -> exists k args, k <> KGraph /\ construct k args = Ok n.
+Proof.
+  intros H Hg. destruct f as [|f]; [discriminate H|]. cbn [dict2node] in H.
+  destruct (assoc "type" d) as [tv|]; [|discriminate H].
+  destruct tv; cbn [bind] in H; try discriminate H.
+  destruct (str2kind s) as [k|e]; cbn [bind] in H; [|discriminate H].
+  destruct k; ok_walk H;
+    try (eexists _, _; split; [|exact H]; discriminate).
+  discriminate Hg.
+Qed.
+
+Lemma canon_idem : forall n, canon (canon n) = canon n.
+Proof.
+  induction n as [k fs ti to|ch es gi go m IH] using node_ind2.
+  - cbn [canon]. rewrite canon_tin_idem, canon_tout_idem. reflexivity.
+  - rewrite canon_graph. unfold mk_graph at 1. rewrite canon_graph. f_equal.
+    rewrite map_map. apply map_ext_in. intros p Hin. rewrite Forall_forall in IH.
+    unfold canon_child. cbn [fst snd]. rewrite (IH p Hin). reflexivity.
+Qed.
+
+Lemma built_canon : forall n, built n -> built (canon n).
+Proof.
+  intros n Hb. induction Hb as [k args n Hk Hc|ch es m Hnd Hbs IH] using built_ind2.
+  - pose proof (dict_round_trip_canon n (built_leaf k args n Hk Hc)) as Hr. unfold from_dict in Hr.
+    apply dict2node_leaf_built in Hr.
+    + destruct Hr as (k2 & args2 & Hk2 & Hc2). exact (built_leaf k2 args2 _ Hk2 Hc2).
+    + destruct (construct_leaf _ _ _ Hc) as (fs & ti & to & ->). reflexivity.
+  - unfold mk_graph. rewrite canon_graph. apply built_graph.
+    + rewrite map_map. cbn [canon_child fst]. exact Hnd.
+    + apply Forall_forall. intros q Hq. apply in_map_iff in Hq. destruct Hq as (p & <- & Hin).
+      rewrite Forall_forall in IH. exact (IH p Hin).
+Qed.
+
+Theorem dict_round_trip_stable : forall n, built n ->
+  from_dict (to_dict (canon n)) = Ok (canon n).
+Proof.
+  intros n Hb. rewrite (dict_round_trip_canon _ (built_canon n Hb)). rewrite canon_idem. reflexivity.
+Qed.
+
+(* two round trips = one round trip *)
+Corollary dict_round_trip_twice : forall n n1, built n -> from_dict (to_dict n) = Ok n1 ->
+  from_dict (to_dict n1) = Ok n1.
+Proof.
+  intros n n1 Hb H. rewrite (dict_round_trip_canon n Hb) in H. inversion H. subst n1.
+  apply dict_round_trip_stable. exact Hb.
+Qed.
+
+(* ---- the counterexample to plain equality (re-checked by computation) --------------------------- *)
+Definition extra_key_input : list (string * pval) :=
+  [("input_type", VDict [("a", VArr "int64" [1] 9 (Some [1])); ("input", VTuple [VInt 2; VInt 3])])].
+
+Lemma extra_keys_lost :
+  exists n n', construct KInput extra_key_input = Ok n /\ from_dict (to_dict n) = Ok n' /\ n' <> n /\
+               n' = canon n.
+Proof.
+  eexists _, _. split; [vm_compute; reflexivity|]. split; [vm_compute; reflexivity|].
+  split; [discriminate|vm_compute; reflexivity].
+Qed.
+
+Eval vm_compute in
+  (match construct KInput extra_key_input with
+   | Ok n => Some (node_tin n, match from_dict (to_dict n) with Ok n' => Some (node_tin n') | Err _ => None end)
+   | Err _ => None end).
+
+
+Corollary dict2node_fuel_plus : forall f k d n, dict2node f d = Ok n -> dict2node (f + k) d = Ok n.
+Proof. intros f k d n H. apply (dict2node_mono f d n H). lia. Qed.
+
+(* the field names of every leaf class as they appear in a constructed node (computed from the generated
+   table; re-checked whenever it changes) *)
+Eval vm_compute in map (fun k => (kind_name k, filter not_type_key (class_keys k))) all_kinds.
+
+Print Assumptions str2kind_name.
+Print Assumptions to_dict_keys_leaf.
+Print Assumptions construct_keys.
+Print Assumptions construct_round.
+Print Assumptions construct_idem.
+Print Assumptions construct_idem_plain.
+Print Assumptions dict2node_mono.
+Print Assumptions dict_round_trip_canon.
+Print Assumptions dict_round_trip.
+Print Assumptions dict_round_trip_eq.
+Print Assumptions same_node_eq.
+Print Assumptions dict_round_trip_stable.
+Print Assumptions dict_round_trip_twice.
+Print Assumptions extra_keys_lost.
